@@ -175,25 +175,51 @@ def addOps : Expr → List Expr
   | .add a b => addOps a ++ addOps b
   | e => [e]
 
-/-- what the folder (`commutative`) does to the flattened chain: literal zeros are dropped, the
-other number literals are added into the position of the first one, and a chain left with a
-single non-constant operand gets `+ 0` back. Values are unaffected, the order in which operands
-are evaluated and checked is. `pre`/`post` = kept operands before/after the merged literal. -/
-def foldAddGo (pre : List Expr) (k : Option Int) (post : List Expr) : List Expr → List Expr
-  | [] => match k with
-    | some n => pre ++ .num n :: post
-    | none => match pre with
-      | [] => [.num 0]
-      | [e] => [e, .num 0]
-      | _ => pre
-  | .num n :: rest =>
-    if n = 0 then foldAddGo pre k post rest
-    else match k with
-      | none => foldAddGo pre (some n) post rest
-      | some m => foldAddGo pre (some (m + n)) post rest
-  | e :: rest => match k with
-    | none => foldAddGo (pre ++ [e]) k post rest
-    | some _ => foldAddGo pre k (post ++ [e]) rest
+/-- state of one `commutative` pass: kept operands before / after the merged literal -/
+structure AddSt where
+  pre : List Expr
+  k : Option Int
+  post : List Expr
+
+def AddSt.keep (st : AddSt) (xs : List Expr) : AddSt :=
+  match st.k with
+  | none => { st with pre := st.pre ++ xs }
+  | some _ => { st with post := st.post ++ xs }
+
+def AddSt.lit (st : AddSt) (n : Int) : AddSt :=
+  if n = 0 then st
+  else match st.k with
+    | none => { st with k := some n }
+    | some m => { st with k := some (m + n) }
+
+/-- one operand `x` of `a + b`, `xs` = its own folded chain if it is an addition -/
+def AddSt.item (st : AddSt) (x : Expr) (xs : List Expr) : AddSt :=
+  match x with
+  | .add _ _ => match xs with
+    | [.num n] => st.lit n
+    | _ => st.keep xs
+  | .num n => st.lit n
+  | e => st.keep [e]
+
+def AddSt.finish (st : AddSt) : List Expr :=
+  match st.k with
+  | some n => st.pre ++ .num n :: st.post
+  | none => match st.pre with
+    | [] => [.num 0]
+    | [e] => [e, .num 0]
+    | l => l
+
+/-- the operand chain the compiler really evaluates for a (nested, parenthesised) addition: the
+folder works bottom-up (`commutative`): literal zeros are dropped, other literals are added into
+the position of the first one, an operand that is itself a folded addition is spliced in as it is,
+a chain left with one non-constant operand gets `+ 0` back. Values are unaffected (exact
+integers); the order in which operands are evaluated and checked is. -/
+def foldAddList : Expr → List Expr
+  | .add a b =>
+    let s1 := (AddSt.mk [] none []).item a (foldAddList a)
+    let s2 := s1.item b (foldAddList b)
+    s2.finish
+  | e => [e]
 
 /-- outcome of evaluating an expression / running statements -/
 inductive Res (α : Type) where
@@ -216,7 +242,7 @@ def evalE : Nat → Frame → State → Expr → Res Val
   | fuel + 1, fr, st, .add a b =>
     -- parenthesised nested additions are one left-to-right chain (the compiler flattens them):
     -- `a + (b + c)` checks `a + b` before `c` is evaluated
-    match foldAddGo [] none [] (addOps (.add a b)) with
+    match foldAddList (.add a b) with
     | [] => .err st
     | e1 :: rest =>
       match evalE fuel fr st e1 with
